@@ -49,6 +49,7 @@ type Case struct {
 	Chain  bool   `json:"chain,omitempty"`
 	T2     Tun    `json:"t2"`
 	Relay  string `json:"relay,omitempty"` // iocopy | readfrom | plain
+	Peek   bool   `json:"peek,omitempty"`  // relay waits for the response to start with a zero-length Read on the onward connection before it starts copying
 	Wait   bool   `json:"wait,omitempty"`  // relay reads the initial payload with a 1440-byte buffer when the request carried none (as service/tcp.go does)
 	Every2 int    `json:"every2,omitempty"`
 	Target int    `json:"target"`
@@ -769,6 +770,15 @@ func (r *runner) relaySide(t1, t2 *tunnel, obs **reqObs) {
 		return
 	}
 	r.w.Go("relay-s2c", func() {
+		if c.Peek {
+			r.ops.Add(1)
+			if n, err := cc.Read(nil); n != 0 || (err != nil && err != io.EOF) {
+				r.fail("relay-error", "s2c", "relay's zero-length Read on the onward connection: n=%d err=%v", n, err)
+				t2.a.in.drain()
+				t1.b.out.closeWrite()
+				return
+			}
+		}
 		if err := r.relayCopy(sc, cc, "s2c"); err != nil {
 			r.fail(relayErrClause(err), "s2c", "relay copy server->client: %v", err)
 			t2.a.in.drain()
